@@ -29,6 +29,13 @@ CLAIMED = {
         "Trusted: Coq kernel; facade model tied to main.py/ruler.py by sampled correspondence; 'a parse writes no instance state except Ruler.__cache__' is tested by the fault injector (all crash points of the sampled documents), not proved from source; extraction+driver (sample re-run in-kernel).",
         "DESIGN.md §3 C14",
     ),
+    "C13": (
+        "proof",
+        "Coq proof (invariant over arbitrary schedules of an atomic-action model of Ruler.getRules/__compile__, any number of threads) + bytecode-shape obligation regenerated from /repo + schedule exploration of the real library with sys.monitoring (pre-emption at bytecode/line boundaries, real threads and nested calls)",
+        "Theorems for ANY number of threads, ANY request programs and ANY schedule, from a fresh or compiled instance: the shared chain cache is only ever absent or complete, no thread fails, and every getRules returns exactly the solo result (C13_getRules_linearizable, C13_cache_never_partial), wait-free (C13_wait_free); nested calls are particular schedules. The model's atomic actions are tied to the code by an obligation comparing them with the accesses to self.__cache__ in the bytecode of /repo (C13_model_shape_is_code_shape, regenerated by dis on every run); publish-then-fill is refuted in Coq. Everything else a parse touches must be call-local: that is explored on the implementation on every run — call B run to completion at every bytecode boundary inside ruler.py and at (sampled) source-line boundaries anywhere in markdown_it/mdurl during call A, in a second real thread or nested; random fine-grained 2-3 thread schedules; fresh and freshly reconfigured instances; plus fresh-interpreter runs for the first link normalisation of a process. Every call must return its solo result.",
+        "Trusted: Coq kernel; CPython GIL atomicity of single attribute/dict/list bytecodes; the model covers Ruler.__cache__ only, thread-locality of the rest of a parse is explored (quick: ~5000 schedules), not proved; sys.monitoring delivers every INSTRUCTION/LINE event of the registered code objects.",
+        "DESIGN.md §3 C13",
+    ),
 }
 
 NOT_YET = {}
